@@ -151,9 +151,17 @@ def run_family(ck, prop, scen_names, clause_tags, nsim, nedges):
         raise Infra("no schedules generated")
     tmp = ck.tmp
     api, steps, outp = (os.path.join(tmp, x) for x in ("api.ndjson", "steps.ndjson", "replay_out.json"))
-    ck.run_driver("./fanout", "^TestReplay$", {"VERIF_SCENARIOS": ck.write_lines("scen.ndjson", [{k: v for k, v in sc.items() if k not in ("pkts_name", "simonly")} for sc in scs]),
-                                               "VERIF_IN": ck.write_lines("scheds.ndjson", lines),
-                                               "VERIF_OUT_API": api, "VERIF_OUT_STEPS": steps, "VERIF_OUT": outp}, timeout=3000)
+    try:
+        ck.run_driver("./fanout", "^TestReplay$", {"VERIF_SCENARIOS": ck.write_lines("scen.ndjson", [{k: v for k, v in sc.items() if k not in ("pkts_name", "simonly")} for sc in scs]),
+                                                   "VERIF_IN": ck.write_lines("scheds.ndjson", lines),
+                                                   "VERIF_OUT_API": api, "VERIF_OUT_STEPS": steps, "VERIF_OUT": outp}, timeout=3000)
+    except Infra:
+        if os.path.exists(outp + ".hang"):  # the driver's watchdog: keep the schedule and the stacks for diagnosis
+            os.makedirs("/tmp/verif_diag", exist_ok=True)
+            dst = "/tmp/verif_diag/%s_replay_hang.txt" % ck.pid
+            __import__("shutil").copy(outp + ".hang", dst)
+            raise Infra("a replayed schedule did not finish within 90 s; schedule and goroutine stacks kept in %s: %s" % (dst, open(dst).readline()[:600]))
+        raise
     ck.cov["phase_s"]["go_replay"] = round(__import__("time").time() - t0 - ck.cov["phase_s"]["tlc_generate"], 1)
     res = ck.read_result(outp)
     if res["runs"] != len(lines):
